@@ -36,6 +36,8 @@ def corpus(rng, thorough):
     vs += [b"a" * n for n in range(1, 40)] + [b"\x00" * n for n in (11, 12, 13, 401, 402)] + ["ab" * k for k in range(1, 12)]
     # equal-but-differently-typed scalars next to each other, in both orders (history dependence)
     vs += [1.0, True, 1.0, 0.0, False, 0.0, -0.0, 0.0, 1, 1.0, True, 1, None, 0, False]
+    # large before compression, small after it (the server's item limit applies to what is stored)
+    vs += [b"\x00" * ((1 << 20) + 1), "a" * 1_100_000, [0] * 600_000]
     # the other built-in types that compare equal to a basic one without being it (a bytearray equals the bytes it holds, a range / dict view ...)
     import array, collections, datetime, decimal, fractions
     vs += [bytearray(b"abc"), bytearray(), bytearray(b"12"), bytearray(range(256)) * 3, [bytearray(b"in a list")], range(5), range(0), slice(1, 5, 2),
@@ -155,6 +157,7 @@ def main(argv):
         for thr in (0, 1, 10, 400):
             serdes.append((f"compressed-{cname}-{thr}", serde.CompressedSerde(compress=cz, decompress=dz, min_compress_len=thr), (cname, cz, thr)))
     serdes.append(("default-compressed", serde.compressed_serde, ("zlib", zlib.compress, 400)))
+    serdes.append(("compressed-defaultcodec-10", serde.CompressedSerde(min_compress_len=10), ("zlib", zlib.compress, 10)))       # the codec left to its default
     serdes.append(("pickle_serde", serde.pickle_serde, None))
     lines, metas = [], []
     n = 0
